@@ -91,6 +91,11 @@ pub enum Op {
 #[derive(Clone, Debug, Serialize, Deserialize)]
 pub struct Case {
     pub agents: Vec<AgentDef>,
+    /// Number of unrelated names (of the first agent) that are given ids before the history starts,
+    /// so that the ids of the items lie beyond one byte (the RocksDB keys hold the id little-endian:
+    /// id 256 sorts before id 1).
+    #[serde(default)]
+    pub prealloc: u16,
     pub ops: Vec<Op>,
 }
 
@@ -350,9 +355,17 @@ fn arb_op(reopen_weight: u32) -> impl Strategy<Value = Op> {
     ]
 }
 
+fn arb_prealloc() -> impl Strategy<Value = u16> {
+    prop_oneof![
+        5 => Just(0u16),
+        1 => 245u16..=258,
+    ]
+}
+
 /// Histories for the model-based sub-checks (1-3 agents x 1-4 items).
 pub fn arb_case() -> impl Strategy<Value = Case> {
-    (arb_agents(4), proptest::collection::vec(arb_op(1), 1..48)).prop_map(|(agents, ops)| Case { agents, ops })
+    (arb_agents(4), arb_prealloc(), proptest::collection::vec(arb_op(1), 1..48))
+        .prop_map(|(agents, prealloc, ops)| Case { agents, prealloc, ops })
 }
 
 /// Histories for the kill sub-check: more items (every first use of an item allocates an id, which is
@@ -363,5 +376,5 @@ pub fn arb_kill_history() -> impl Strategy<Value = Case> {
         12 => arb_op(1),
         1 => any::<u16>().prop_map(Op::Id),
     ];
-    (arb_agents(6), proptest::collection::vec(op, 4..60)).prop_map(|(agents, ops)| Case { agents, ops })
+    (arb_agents(6), proptest::collection::vec(op, 4..60)).prop_map(|(agents, ops)| Case { agents, prealloc: 0, ops })
 }
